@@ -6,7 +6,9 @@ package hz
 // reopened over the same directory; plus access to the ChainBridge of a mock node.
 
 import (
+	"github.com/syndtr/goleveldb/leveldb"
 	"os"
+	"path/filepath"
 	"time"
 
 	"github.com/zenon-network/go-zenon/chain"
@@ -31,6 +33,7 @@ type BareNode struct {
 	Br    protocol.ChainBridge
 	owned bool
 	open  bool
+	cldb  *leveldb.DB
 }
 
 // OpenBare opens (or creates) a node over dir; dir == "" makes a temporary directory removed by Destroy.
@@ -45,7 +48,10 @@ func OpenBare(dir string) *BareNode {
 		dir, owned = d, true
 	}
 	ch := chain.NewChain(db.NewLevelDBManager(dir), genesis.NewGenesis(g.EmbeddedGenesis))
-	cs := consensus.NewConsensus(db.NewMemDB(), ch, true)
+	// the consensus DB (stored elections and points) is a LevelDB next to the chain's, as in zenon.NewZenon: it
+	// survives a restart (Reopen), so what a restarted node reads back from it is part of what the harnesses compare
+	cdb, cldb := db.NewLevelDB(filepath.Join(dir, "consensus"))
+	cs := consensus.NewConsensus(cdb, ch, true)
 	common.DealWithErr(ch.Init())
 	common.DealWithErr(cs.Init())
 	common.DealWithErr(ch.Start())
@@ -53,7 +59,7 @@ func OpenBare(dir string) *BareNode {
 	sv := vm.NewSupervisor(ch, cs)
 	br := protocol.NewChainBridge(ch, cs, verifier.NewVerifier(ch, cs), sv)
 	Quiet()
-	return &BareNode{Dir: dir, Ch: ch, Cs: cs, Sv: sv, Br: br, owned: owned, open: true}
+	return &BareNode{Dir: dir, Ch: ch, Cs: cs, Sv: sv, Br: br, owned: owned, open: true, cldb: cldb}
 }
 
 // Stop closes consensus and chain (leveldb closed); the directory stays.
@@ -64,6 +70,9 @@ func (b *BareNode) Stop() {
 	b.open = false
 	common.DealWithErr(b.Cs.Stop())
 	common.DealWithErr(b.Ch.Stop())
+	if b.cldb != nil {
+		b.cldb.Close()
+	}
 }
 
 // Reopen = process restart over the same data directory (cold caches).
